@@ -350,6 +350,17 @@ def arg_names(ctx, rule, callee_ok, exceptions, min_sites, P=None):
                         a.attr if isinstance(a, ast.Attribute) and
                         isinstance(a.value, ast.Name) and
                         a.value.id == 'self' else None)
+                    if nm is None and isinstance(a, ast.Subscript) and \
+                            isinstance(a.value, ast.Name) and isinstance(
+                            a.slice, ast.Constant) and isinstance(
+                            a.slice.value, str):
+                        nm = a.slice.value       # data['key'] spells 'key'
+                    if nm is None and isinstance(a, ast.Call) and isinstance(
+                            a.func, ast.Attribute) and a.func.attr == 'get' \
+                            and isinstance(a.func.value, ast.Name) and a.args \
+                            and isinstance(a.args[0], ast.Constant) and \
+                            isinstance(a.args[0].value, str):
+                        nm = a.args[0].value     # data.get('key', ...)
                     if nm is None or prm is None:
                         continue
                     n += 1
@@ -423,4 +434,97 @@ def arg_forward(ctx, rule, min_sites, P=None):
     res.min_instances = min_sites
     if n < min_sites:
         raise AnalysisError(f'{rule}: only {n} base-constructor calls found')
+    return res
+
+
+# --------------------------------------------------------------------------
+# DERIVED-SYNC: an attribute the constructor derives from other attributes
+# (d = f(a)) is recomputed by every method that rewrites a.  A constructor
+# cache that an editing method leaves behind is lens state that no longer
+# matches the prescription (and is not serialised).
+
+_SHAPE_ONLY = ('np.zeros_like', 'np.ones_like', 'np.empty_like',
+               'np.full_like', 'len', 'np.shape', 'np.size')
+
+
+def derived_sync(ctx, rule, min_classes=40):
+    P = ctx.P
+    res = Result(rule, 'every attribute that a constructor computes from '
+                 'other attributes of the object is recomputed by each method '
+                 'that assigns one of those attributes')
+    n = 0
+    for cn, c in sorted(P.classes.items()):
+        init = c.methods.get('__init__')
+        if init is None:
+            continue
+        n += 1
+        stores = {}
+        for st in init.node.body:
+            if isinstance(st, ast.Assign) and isinstance(
+                    st.targets[0], ast.Attribute) and \
+                    unparse(st.targets[0].value) == 'self':
+                stores[st.targets[0].attr] = st.value
+        p2a = {v.id: a for a, v in stores.items() if isinstance(v, ast.Name)}
+
+        def reads_of(expr, depth=0):
+            deps = set()
+            for x in ast.walk(expr):
+                if isinstance(x, ast.Call) and unparse(x.func) in _SHAPE_ONLY:
+                    return set()      # depends on the shape only
+            for x in ast.walk(expr):
+                if isinstance(x, ast.Name) and x.id in p2a:
+                    deps.add(p2a[x.id])
+                elif isinstance(x, ast.Attribute) and \
+                        unparse(x.value) == 'self' and x.attr in stores and \
+                        isinstance(x.ctx, ast.Load):
+                    deps.add(x.attr)
+                elif isinstance(x, ast.Call) and isinstance(
+                        x.func, ast.Attribute) and \
+                        unparse(x.func.value) == 'self' and depth == 0:
+                    g = P.lookup(cn, x.func.attr)
+                    if g is not None:
+                        for y in ast.walk(g.node):
+                            if isinstance(y, ast.Attribute) and unparse(
+                                    y.value) == 'self' and isinstance(
+                                    y.ctx, ast.Load) and y.attr in stores:
+                                deps.add(y.attr)
+            return deps
+        for d, v in stores.items():
+            if isinstance(v, (ast.Name, ast.Constant)):
+                continue
+            deps = reads_of(v) - {d}
+            if not deps:
+                continue
+            res.saw(init)
+            bad = None
+            for mn, m in list(c.methods.items()) + list(c.setters.items()):
+                if mn == '__init__':
+                    continue
+                st_attrs = set()
+                for x in ast.walk(m.node):
+                    if isinstance(x, (ast.Assign, ast.AugAssign)):
+                        tgs = x.targets if isinstance(x, ast.Assign) \
+                            else [x.target]
+                        for t in tgs:
+                            for e in (t.elts if isinstance(t, ast.Tuple)
+                                      else [t]):
+                                if isinstance(e, ast.Attribute) and \
+                                        unparse(e.value) == 'self':
+                                    st_attrs.add(e.attr)
+                if st_attrs & deps and d not in st_attrs:
+                    bad = (m, sorted(st_attrs & deps))
+                    break
+            if bad:
+                res.fail(ctx.finding(
+                    rule, bad[0], bad[0].node,
+                    f'{cn}.__init__ derives self.{d} = {unparse(v)[:50]} from '
+                    f'{sorted(deps)}; {bad[0].qual} assigns {bad[1]} without '
+                    f'recomputing self.{d}: after that call the object holds '
+                    f'a value derived from the old state',
+                    construct=f'{cn}.{d} stale after {bad[0].name}'))
+            else:
+                res.ok(f'{cn}.{d} (from {sorted(deps)}): recomputed wherever '
+                       f'its sources are assigned')
+    if n < min_classes:
+        raise AnalysisError(f'{rule}: only {n} constructors analysed')
     return res
